@@ -533,8 +533,44 @@ def run_history(c):
     return out
 
 
+def run_cli_sequence(cfgs):
+    """several input files run one after the other through the command-line worker in ONE process (what a batch script importing the
+    package does); returns what each run wrote"""
+    import tempfile, shutil, io, contextlib
+    import ghedesigner.manager as M
+    tmp = Path(tempfile.mkdtemp(prefix="verif_cliseq_"))
+    out = []
+    try:
+        for i, cfg in enumerate(cfgs):
+            c = materialise(cfg)
+            ip = tmp / f"in{i}.json"
+            ip.write_text(json.dumps({k: v for k, v in c.items() if not k.startswith("_")}))
+            od = tmp / f"out{i}"
+            err = io.StringIO()
+            try:
+                with contextlib.redirect_stderr(err), contextlib.redirect_stdout(err):
+                    rc = M._run_manager_from_cli_worker(ip, od)
+                r = {"rc": rc}
+            except Exception as ex:      # the class is part of the observation
+                r = {"exc": type(ex).__name__, "msg": str(ex)[:160]}
+            sp = od / "SimulationSummary.json"
+            if sp.exists():
+                d = json.loads(sp.read_text())
+                gs = d["ghe_system"]
+                r.update({"nbh": gs["number_of_boreholes"], "H": gs["active_borehole_length"]["value"], "field_specifier": gs.get("field_specifier"),
+                          "max": d["simulation_results"]["max_hp_eft"]["value"], "min": d["simulation_results"]["min_hp_eft"]["value"],
+                          "borefield": (od / "BoreFieldData.csv").read_text()})
+            out.append(r)
+    finally:
+        shutil.rmtree(tmp, ignore_errors=True)
+    return out
+
+
 if __name__ == "__main__":
     p = read_payload()
+    if p.get("mode") == "cli_sequence":
+        emit([run_cli_sequence(seq) for seq in p["sequences"]])
+        sys.exit(0)
     if p.get("mode") == "history":
         emit([run_history(c) for c in p["cases"]])
         sys.exit(0)
